@@ -19,8 +19,8 @@ def _strip_generics(path):
     while i < len(path):
         c = path[i]
         if c == '<':
-            # keep leading '<T as Trait>' qualified paths intact
-            if i == 0:
+            # keep leading '<T as Trait>' qualified paths and '<impl ...>' segments intact
+            if (i == 0 or path.startswith('<impl ', i)) and depth == 0:
                 depth_q = 1
                 j = i + 1
                 while j < len(path) and depth_q:
@@ -41,7 +41,11 @@ def _strip_generics(path):
         elif depth == 0:
             out.append(c)
         i += 1
-    return ''.join(out)
+    r = ''.join(out)
+    if "'" in r:
+        r = re.sub(r"'[A-Za-z_][A-Za-z0-9_]*(, )?", '', r)
+        r = r.replace('<>', '').replace('&mut  ', '&mut ')
+    return r
 
 
 class Place:
